@@ -93,14 +93,15 @@ func rangeSets(maxT int64, k int, ordered bool) []tsmkit.TombSet {
 	return out
 }
 
-// overlapFree keeps the sets whose ranges are pairwise non-intersecting (disjoint with a gap, or adjacent).
-func overlapFree(sets []tsmkit.TombSet) []tsmkit.TombSet {
+// apart keeps the sets whose ranges are pairwise non-intersecting with at least gap grid points between
+// them (gap=0: disjoint, adjacent ranges included; gap=1: a timestamp of the grid lies between any two ranges).
+func apart(sets []tsmkit.TombSet, gap int64) []tsmkit.TombSet {
 	var out []tsmkit.TombSet
 	for _, ts := range sets {
 		ok := true
 		for i := range ts {
 			for j := i + 1; j < len(ts); j++ {
-				if ts[i].Min <= ts[j].Max && ts[j].Min <= ts[i].Max {
+				if ts[i].Min <= ts[j].Max+gap && ts[j].Min <= ts[i].Max+gap {
 					ok = false
 				}
 			}
@@ -841,6 +842,10 @@ func explore(c *vlib.Ctx, scratch string, idx *int64, fam family) bool {
 	layouts := tsmkit.Layouts(int(maxT), fam.maxBlocks)
 	tombs := fam.tombs
 	shared := via == viaPooled && !fam.perCase
+	if c.Expired() {
+		c.Cap("budget expired before " + what)
+		return false
+	}
 	t0 := time.Now()
 	p, err := buildPool(filepath.Join(scratch, "pool"), nfiles, layouts, tombs, shared)
 	if err != nil {
@@ -1014,9 +1019,9 @@ func TestCheck(t *testing.T) {
 	vlib.Main(t, &vlib.Check{
 		ID: "C06", Level: "exploration",
 		Rule: "one series key per block type (5 keys with identical layout per file); file = any non-empty subset of timestamps {1..N} split into 1-B contiguous blocks (B=2: N=5 80 layouts, N=4 32, N=3 12, N=2 4; B=3: N=6 303, N=5 111, N=4 39) x a tombstone set, written with the real TSMWriter/Tombstoner. " +
-			"BASE tombstone family: {none, whole key, [2,3], [1,1], [N,N+4], [1,1]+[2,3]}. MULTI-RANGE families over the grid ranges [a,b], 1<=a<=b<=N: P2(N) = every set of 2 distinct ranges (disjoint with a gap, adjacent, overlapping, nested; N=3: 15, N=4: 45, N=5: 105, N=6: 210), O2(N) = the same in both recording orders, D2(N) = the sets of P2(N) whose ranges do not intersect (gap or adjacent; N=4: 15), P3(N) = every set of 3 distinct ranges (N=4: 120, N=5: 455). " +
-			"QUICK: (a) every ordered pair of files for N=2,B=2, all 6x6 BASE combinations, hard-linked into a directory and opened with the real FileStore.Open; (m1) every single file N=4,B=3 x {none}+O2(4), tombstone file loaded by FileStore.Open; (m2) the same family, file opened without tombstones and every range applied in recorded order with FileStore.DeleteRange; (m3) every single file N=5,B=3 x {none}+P2(5); (m4) every ordered pair of files N=4,B=2 where exactly one file (either position) carries a set of D2(4) and the other none; (b) every ordered pair for N=4,B=2, all BASE combinations; (c) every ordered pair for N=5,B=2 with a BASE set on at most one file. " +
-			"THOROUGH: (a) as quick but N=4; (m1),(m2) with {none}+O2(4)+P3(4); (m3) with {none}+O2(5)+P3(5); (m5) every single file N=6,B=3 x {none}+P2(6); (b) every ordered pair for N=5, all BASE combinations; (m4) exactly one file carries any set of P2(4), the other none or [2,3]; (c) every ordered triple for N=3 with all 6^3 BASE combinations; (d) every ordered triple for N=5 without tombstones; (m6) every ordered triple N=3,B=2 where exactly one file (any position) carries a set of P2(3) and the others none; (e) every ordered triple for N=4 with all 6^3 BASE combinations (the largest family, last: the budget may cap it). " +
+			"BASE tombstone family: {none, whole key, [2,3], [1,1], [N,N+4], [1,1]+[2,3]}. MULTI-RANGE families over the grid ranges [a,b], 1<=a<=b<=N: P2(N) = every set of 2 distinct ranges (disjoint with a gap, adjacent, overlapping, nested; N=3: 15, N=4: 45, N=5: 105, N=6: 210), O2(N) = the same in both recording orders, D2(N) = the sets of O2(N) whose ranges do not intersect (separated by a gap, or adjacent; N=4: 30), G2(N) = the sets of P2(N) with at least one grid timestamp between the two ranges (N=4: 5), P3(N) = every set of 3 distinct ranges (N=4: 120, N=5: 455). " +
+			"QUICK: (a) every ordered pair of files for N=2,B=2, all 6x6 BASE combinations, hard-linked into a directory and opened with the real FileStore.Open; (m1) every single file N=4,B=3 x {none}+O2(4), tombstone file loaded by FileStore.Open; (m2) every single file N=4,B=3 x {none}+D2(4), file opened without tombstones and every range applied in recorded order with FileStore.DeleteRange; (m4) every ordered pair of files N=4,B=2 where exactly one file (either position) carries a set of G2(4) and the other none; (b) every ordered pair for N=4,B=2, all BASE combinations; (c) every ordered pair for N=5,B=2 with a BASE set on at most one file. " +
+			"THOROUGH: (a) as quick but N=4; (m1),(m2) both with {none}+O2(4)+P3(4); (m3) every single file N=5,B=3 x {none}+O2(5)+P3(5); (b) every ordered pair for N=5, all BASE combinations; (m4) exactly one file carries any set of P2(4), the other none or [2,3]; (c) every ordered triple for N=3 with all 6^3 BASE combinations; (d) every ordered triple for N=5 without tombstones; (m6) every ordered triple N=3,B=2 where exactly one file (any position) carries a set of P2(3) and the others none; (m5) every single file N=6,B=3 x {none}+P2(6); (e) every ordered triple for N=4 with all 6^3 BASE combinations (the largest family, last: the budget may cap it). " +
 			"(m3)-(m6),(b)-(e) use real TSMReaders (tombstones loaded from disk) handed to a FileStore in path order. " +
 			"Per file set: every seek time 0..N+1 x ascending/descending x Read<T>Block/Read<T>ArrayBlock x 5 block types, driven read, Next(), read ... until an empty block; one evaluation = one cursor run; oracle = newest-file-wins merge of per-file live points (a point is live when NO range of its file's set covers it) restricted to the seek side, compared in consumer yield order; " +
 			"non-trivial = runs whose expected yield is non-empty and where either blocks of two different files overlap in time or the yield holds a point that is live in a block lying inside the overall span [smallest Min, largest Max] of the >=2 tombstone ranges of its file, i.e. in the gap between ranges (distinct by construction; the latter are also counted in extra.runs_live_point_between_tombstone_ranges)",
@@ -1040,11 +1045,11 @@ func TestCheck(t *testing.T) {
 			run := func(f family) bool { return explore(c, scratch, &idx, f) }
 			if c.Quick() {
 				o24 := withNone(rangeSets(4, 2, true))
+				d24 := withNone(apart(rangeSets(4, 2, true), 0))
 				_ = run(family{what: "(a) pairs N=2 via FileStore.Open", via: viaOpen, nfiles: 2, maxT: 2, maxBlocks: 2, tombs: base(2)}) &&
 					run(family{what: "(m1) single file N=4 B=3, ordered 2-range sets, via FileStore.Open", via: viaOpen, nfiles: 1, maxT: 4, maxBlocks: 3, tombs: o24}) &&
-					run(family{what: "(m2) single file N=4 B=3, ordered 2-range sets, via DeleteRange", via: viaLive, nfiles: 1, maxT: 4, maxBlocks: 3, tombs: o24}) &&
-					run(family{what: "(m3) single file N=5 B=3, 2-range sets", via: viaPooled, perCase: true, nfiles: 1, maxT: 5, maxBlocks: 3, tombs: withNone(rangeSets(5, 2, false))}) &&
-					run(family{what: "(m4) pairs N=4, non-intersecting 2-range set on exactly one file", via: viaPooled, nfiles: 2, maxT: 4, maxBlocks: 2, tombs: withNone(overlapFree(rangeSets(4, 2, false))), allow: oneMulti(1)}) &&
+					run(family{what: "(m2) single file N=4 B=3, ordered non-intersecting 2-range sets, via DeleteRange", via: viaLive, nfiles: 1, maxT: 4, maxBlocks: 3, tombs: d24}) &&
+					run(family{what: "(m4) pairs N=4, 2-range set with a gap on exactly one file", via: viaPooled, nfiles: 2, maxT: 4, maxBlocks: 2, tombs: withNone(apart(rangeSets(4, 2, false), 1)), allow: oneMulti(1)}) &&
 					run(family{what: "(b) pairs N=4", via: viaPooled, nfiles: 2, maxT: 4, maxBlocks: 2, tombs: base(4)}) &&
 					run(family{what: "(c) pairs N=5 (tombstones on <=1 file)", via: viaPooled, nfiles: 2, maxT: 5, maxBlocks: 2, tombs: base(5), allow: atMostTomb(1)})
 				return
@@ -1054,13 +1059,13 @@ func TestCheck(t *testing.T) {
 				run(family{what: "(m1) single file N=4 B=3, ordered 2-range and 3-range sets, via FileStore.Open", via: viaOpen, nfiles: 1, maxT: 4, maxBlocks: 3, tombs: o24}) &&
 				run(family{what: "(m2) single file N=4 B=3, ordered 2-range and 3-range sets, via DeleteRange", via: viaLive, nfiles: 1, maxT: 4, maxBlocks: 3, tombs: o24}) &&
 				run(family{what: "(m3) single file N=5 B=3, ordered 2-range and 3-range sets", via: viaPooled, perCase: true, nfiles: 1, maxT: 5, maxBlocks: 3, tombs: withNone(rangeSets(5, 2, true), rangeSets(5, 3, false))}) &&
-				run(family{what: "(m5) single file N=6 B=3, 2-range sets", via: viaPooled, perCase: true, nfiles: 1, maxT: 6, maxBlocks: 3, tombs: withNone(rangeSets(6, 2, false))}) &&
 				run(family{what: "(b) pairs N=5", via: viaPooled, nfiles: 2, maxT: 5, maxBlocks: 2, tombs: base(5)}) &&
 				run(family{what: "(m4) pairs N=4, any 2-range set on exactly one file, other none or [2,3]", via: viaPooled, nfiles: 2, maxT: 4, maxBlocks: 2,
 					tombs: append([]tsmkit.TombSet{nil, {{Min: 2, Max: 3}}}, rangeSets(4, 2, false)...), allow: oneMulti(2)}) &&
 				run(family{what: "(c) triples N=3", via: viaPooled, nfiles: 3, maxT: 3, maxBlocks: 2, tombs: base(3)}) &&
 				run(family{what: "(d) triples N=5 without tombstones", via: viaPooled, nfiles: 3, maxT: 5, maxBlocks: 2, tombs: withNone()}) &&
 				run(family{what: "(m6) triples N=3, any 2-range set on exactly one file", via: viaPooled, nfiles: 3, maxT: 3, maxBlocks: 2, tombs: withNone(rangeSets(3, 2, false)), allow: oneMulti(1)}) &&
+				run(family{what: "(m5) single file N=6 B=3, 2-range sets", via: viaPooled, perCase: true, nfiles: 1, maxT: 6, maxBlocks: 3, tombs: withNone(rangeSets(6, 2, false))}) &&
 				run(family{what: "(e) triples N=4", via: viaPooled, nfiles: 3, maxT: 4, maxBlocks: 2, tombs: base(4)})
 		},
 		Replay: func(c *vlib.Ctx, raw json.RawMessage) (bool, string) {
